@@ -161,6 +161,24 @@ def run(tier):
         sc = {"meta": meta, "sql": "SELECT id, %s AS r0 FROM stream" % sql(e), "rows": rows, "noretype": True}
         if i % 3 == 0: sc["mode"] = "sync"
         scen.append(sc)
+    # constant sub-expressions whose value has no short decimal form (1 / 3, 22 / 7) scaled back up by a large literal: the value of the
+    # item is that of the arithmetic as written (exact rationals in the model), whatever the engine computes ahead of the rows
+    for i in range(40 if quick else 1500):
+        c2 = rng.choice([3, 7, 9, 11, 13])
+        c1 = rng.choice([1, 2, 5, 22])
+        frac = {"t": "bin", "op": "/", "a": exprgen.num(c1), "b": exprgen.num(c2)}
+        big = {"t": "bin", "op": "*", "a": frac, "b": exprgen.num(c2 * rng.choice([1000, 3000]))}
+        x = exprgen.col(rng.choice(["x", "y"]))
+        shape = i % 4
+        if shape == 0: e = {"t": "bin", "op": "+", "a": big, "b": x}                               # 1 / 3 * 3000 + x
+        elif shape == 1: e = {"t": "bin", "op": "+", "a": x, "b": big}                             # x + 1 / 3 * 3000
+        elif shape == 2: e = {"t": "bin", "op": "*", "a": exprgen.par(big), "b": x}                # (1 / 3 * 3000) * x
+        else: e = {"t": "case", "whens": [{"c": {"t": "cmp", "op": ">", "a": x, "b": exprgen.num(1)}, "r": big}], "else": exprgen.num(0)}
+        rows = [{"id": j + 1, "x": rng.choice([0, 1, 2, 5]), "y": rng.choice([1, 2, 3])} for j in range(rng.choice([3, 5]))]
+        meta = {"fam": "direct", "star": 0, "chan": 0, "sel": [{"al": "id", "e": exprgen.col("id")}, {"al": "r0", "e": e}], "profile": "const_subexpr"}
+        sc = {"meta": meta, "sql": "SELECT id, %s AS r0 FROM stream" % sql(e), "rows": rows}
+        if i % 2: sc["mode"] = "sync"
+        scen.append(sc)
     # long predicates (30-40 comparisons, well over 100 tokens): a long WHERE is a WHERE
     gl = Gen(rng, nulls=False, cases=False, nots=False, flat=True)
     for i in range(20 if quick else 600):
